@@ -46,5 +46,10 @@
  */
 int snoopy_output_stdoutoutput (char const * const logMessage, __attribute__((unused)) char const * const arg)
 {
-    return fprintf(stdout, "%s\n", logMessage);
+    int charCount = fprintf(stdout, "%s\n", logMessage);
+
+    // The process image is about to be replaced, which discards whatever still sits in the stdio buffer
+    fflush(stdout);
+
+    return charCount;
 }
